@@ -4,7 +4,7 @@
    (and the statement of C18_parse_print on every generated case) against the implementation.
    This file contains statements only; proofs live in theories/PathText_proofs.v.
    Character codes: 46 '.', 91 '[', 93 ']', 39 single quote, 34 double quote, 92 backslash. *)
-From Fiddle Require Import PyBase PyText PathText C18Check PathText_proofs Anchors.
+From Fiddle Require Import PyBase PyText PathText C18Check PathText_proofs AnchorsPath.
 Open Scope N_scope.
 
 (* ---- 1. repr / literal_eval on ASCII strings *)
